@@ -389,6 +389,8 @@ def float_idioms(t):
                 fa = floor_of(a.args[0])
                 if fa is not None and fa.op == 'fneg' and fa.args[0] is x:
                     return tm.fn('trunc', (x,), y.w)
+            if fb is x and a.op == 'fn' and a.args[0] == 'ceil' and len(a.args) == 2 and a.args[1] is x:
+                return tm.fn('trunc', (x,), y.w)          # x < 0 ? ceil(x) : floor(x): the same exact identity (-floor(-x) is ceil(x), sign of zero included)
         ax = ge_half(c)
         if ax is not None and ax.op == 'fabs' and b.op == 'fmul':
             x = ax.args[0]
